@@ -248,13 +248,17 @@ class SRTM30:
             and longitude coordinates of the SRTM30 data points within the
             given rectangle.
         """
-        i = (90 - lat_max) / SRTM30._dlat
+        # Rows are counted southwards from 90 N: row i covers the latitudes
+        # from 90 - (i + 1) * dlat to 90 - i * dlat. The first row is the one
+        # that contains (or starts at) the northern edge, the last row the
+        # one that contains the southern edge; if that edge lies exactly on a
+        # cell border, the row below it is not needed.
+        i_min = np.trunc((90 - lat_max) / SRTM30._dlat)
+        i = (90 - lat_min) / SRTM30._dlat
         i_max = np.trunc(i)
         if not i_max < i:
-            i_max = i_max + 1
-        i = (90 - lat_min) / SRTM30._dlat
-        i_min = np.trunc(i)
-        lat_grid = 90 + 0.5 * SRTM30._dlat - np.arange(i_max, i_min + 1) * SRTM30._dlat
+            i_max = i_max - 1
+        lat_grid = 90 - 0.5 * SRTM30._dlat - np.arange(i_min, i_max + 1) * SRTM30._dlat
 
         j = (lon_max + 180) / SRTM30._dlon
         j_max = np.trunc((lon_max + 180.0) / SRTM30._dlon)
